@@ -114,6 +114,7 @@ func init() {
 			{Name: "bytes", Run: c13Bytes},
 			{Name: "afteruse", Run: afterUse(c13Bytes)},
 			{Name: "srcviews", TShards: 2, Run: srcViewUnit(viewCallsC13)},
+			{Name: "bigdst", Run: bigDstUnit(bigDstC13)},
 			{Name: "casemasks", Run: caseMaskUnit("ACGT", 80, 300, func(k *K, v []byte) { checkPack(k, v, false) })},
 			{Name: "longcontext", QShards: 8, TShards: 12, Run: func(c *Ctx) {
 				longContextPanics(c, 0, "ACGTacgt", []byte{'N', 'U', 'u', '@', 0, 0xff, 'B', 0x80, '`'}, map[string]func([]byte){
@@ -144,6 +145,7 @@ func init() {
 			{Name: "panics", Run: c14Panics},
 			{Name: "afteruse", Run: afterUse(c14Panics)},
 			{Name: "srcviews", TShards: 2, Run: srcViewUnit(viewCallsC14)},
+			{Name: "bigdst", Run: bigDstUnit(bigDstC14)},
 			{Name: "casemasks", Run: caseMaskUnit("ACGT", 60, 200, func(k *K, v []byte) {
 				checkFrames(k, v)
 				w := v[:len(v)/3*3]
